@@ -1,6 +1,7 @@
 package checks
 
 import (
+	"crypto/rand"
 	"fmt"
 	"math/big"
 	"reflect"
@@ -38,9 +39,9 @@ func init() {
 		Level: "exploration",
 		Rule: "all 15 proof systems driven directly with 2048-bit parameters from the prime pool: completeness on a boundary lattice of witnesses; binding by replacing every public-input field with that of another valid instance, swapping same-typed inputs, changing the context hash, replacing every proof field by the same field of another valid proof (same statement other randomness / other statement) and by +-1/negation/zero, and by proving with a witness far outside the range; " +
 			"distinct non-trivial = distinct (system, witness class) that verified plus distinct (system, perturbed field, perturbation kind) that were judged",
-		MinDistinct: 150,
-		Assumptions: []string{"a panic inside Verify on a perturbed input is tallied and counted as 'not accepted' (crash safety is C05)", "perturbations that leave the value unchanged are skipped"},
-		Cases:       c10Cases,
+		MinDistinct:  150,
+		Assumptions:  []string{"a panic inside Verify on a perturbed input is tallied and counted as 'not accepted' (crash safety is C05)", "perturbations that leave the value unchanged are skipped"},
+		Cases:        c10Cases,
 		CaseTimeoutS: 1800,
 	})
 }
@@ -55,6 +56,14 @@ type zkEnv struct {
 func zkEnvAt(i int) zkEnv {
 	e := zkEnv{prover: c12KeyAt(2 * i), verifier: c12KeyAt(2*i + 1)}
 	e.aux, e.auxLambda = e.verifier.sk.GeneratePedersen()
+	return e
+}
+
+// zkEnvIndependentAux: the auxiliary Pedersen parameters live over a modulus that is neither the prover's nor the
+// verifier's Paillier modulus (the proof systems take them as an independent input).
+func zkEnvIndependentAux(i int) zkEnv {
+	e := zkEnv{prover: c12KeyAt(2 * i), verifier: c12KeyAt(2*i + 1)}
+	e.aux, e.auxLambda = c12KeyAt(2*i + 2).sk.GeneratePedersen()
 	return e
 }
 
@@ -137,8 +146,10 @@ var zkSystems = []zkSystem{
 		pub := zkenc.Public{K: K, Prover: e.prover.sk.PublicKey, Aux: e.aux}
 		priv := zkenc.Private{K: intOf(k), Rho: rho} // one witness object for every proof made from this instance
 		return &zkInst{pub: addr(pub),
-			prove:  func(h *hash.Hash) interface{} { return zkenc.NewProof(group, h, pub, priv) },
-			verify: func(h *hash.Hash, p reflect.Value, pr interface{}) bool { return pr.(*zkenc.Proof).Verify(group, h, p.Interface().(zkenc.Public)) }}
+			prove: func(h *hash.Hash) interface{} { return zkenc.NewProof(group, h, pub, priv) },
+			verify: func(h *hash.Hash, p reflect.Value, pr interface{}) bool {
+				return pr.(*zkenc.Proof).Verify(group, h, p.Interface().(zkenc.Public))
+			}}
 	}},
 	{"logstar", rangeClasses, func(r *vk.Rand, e zkEnv, class string) *zkInst {
 		x := bigWitness(r, class, 256)
@@ -147,8 +158,10 @@ var zkSystems = []zkSystem{
 		pub := zklogstar.Public{C: C, X: modQ(x).Act(G), G: G, Prover: e.prover.sk.PublicKey, Aux: e.aux}
 		priv := zklogstar.Private{X: intOf(x), Rho: rho} // one witness object for every proof made from this instance
 		return &zkInst{pub: addr(pub),
-			prove:  func(h *hash.Hash) interface{} { return zklogstar.NewProof(group, h, pub, priv) },
-			verify: func(h *hash.Hash, p reflect.Value, pr interface{}) bool { return pr.(*zklogstar.Proof).Verify(h, p.Interface().(zklogstar.Public)) }}
+			prove: func(h *hash.Hash) interface{} { return zklogstar.NewProof(group, h, pub, priv) },
+			verify: func(h *hash.Hash, p reflect.Value, pr interface{}) bool {
+				return pr.(*zklogstar.Proof).Verify(h, p.Interface().(zklogstar.Public))
+			}}
 	}},
 	{"encelg", rangeClasses, func(r *vk.Rand, e zkEnv, class string) *zkInst {
 		x := bigWitness(r, class, 256)
@@ -158,8 +171,10 @@ var zkSystems = []zkSystem{
 		pub := zkencelg.Public{C: C, A: a.ActOnBase(), B: b.ActOnBase(), X: abx.ActOnBase(), Prover: e.prover.sk.PublicKey, Aux: e.aux}
 		priv := zkencelg.Private{X: intOf(x), Rho: rho, A: a, B: b} // one witness object for every proof made from this instance
 		return &zkInst{pub: addr(pub),
-			prove:  func(h *hash.Hash) interface{} { return zkencelg.NewProof(group, h, pub, priv) },
-			verify: func(h *hash.Hash, p reflect.Value, pr interface{}) bool { return pr.(*zkencelg.Proof).Verify(h, p.Interface().(zkencelg.Public)) }}
+			prove: func(h *hash.Hash) interface{} { return zkencelg.NewProof(group, h, pub, priv) },
+			verify: func(h *hash.Hash, p reflect.Value, pr interface{}) bool {
+				return pr.(*zkencelg.Proof).Verify(h, p.Interface().(zkencelg.Public))
+			}}
 	}},
 	{"dec", []string{"0", "+1", "-1", "+max", "-max", "random"}, func(r *vk.Rand, e zkEnv, class string) *zkInst {
 		y := bigWitness(r, class, 256)
@@ -167,8 +182,10 @@ var zkSystems = []zkSystem{
 		pub := zkdec.Public{C: C, X: modQ(y), Prover: e.prover.sk.PublicKey, Aux: e.aux}
 		priv := zkdec.Private{Y: intOf(y), Rho: rho} // one witness object for every proof made from this instance
 		return &zkInst{pub: addr(pub),
-			prove:  func(h *hash.Hash) interface{} { return zkdec.NewProof(group, h, pub, priv) },
-			verify: func(h *hash.Hash, p reflect.Value, pr interface{}) bool { return pr.(*zkdec.Proof).Verify(h, p.Interface().(zkdec.Public)) }}
+			prove: func(h *hash.Hash) interface{} { return zkdec.NewProof(group, h, pub, priv) },
+			verify: func(h *hash.Hash, p reflect.Value, pr interface{}) bool {
+				return pr.(*zkdec.Proof).Verify(h, p.Interface().(zkdec.Public))
+			}}
 	}},
 	{"affg", rangeClassesXY, func(r *vk.Rand, e zkEnv, class string) *zkInst {
 		x, y := xyWitness(r, class)
@@ -183,7 +200,9 @@ var zkSystems = []zkSystem{
 			prove: func(h *hash.Hash) interface{} {
 				return zkaffg.NewProof(group, h, pub, priv)
 			},
-			verify: func(h *hash.Hash, p reflect.Value, pr interface{}) bool { return pr.(*zkaffg.Proof).Verify(h, p.Interface().(zkaffg.Public)) }}
+			verify: func(h *hash.Hash, p reflect.Value, pr interface{}) bool {
+				return pr.(*zkaffg.Proof).Verify(h, p.Interface().(zkaffg.Public))
+			}}
 	}},
 	{"affp", rangeClassesXY, func(r *vk.Rand, e zkEnv, class string) *zkInst {
 		x, y := xyWitness(r, class)
@@ -199,7 +218,9 @@ var zkSystems = []zkSystem{
 			prove: func(h *hash.Hash) interface{} {
 				return zkaffp.NewProof(group, h, pub, priv)
 			},
-			verify: func(h *hash.Hash, p reflect.Value, pr interface{}) bool { return pr.(*zkaffp.Proof).Verify(group, h, p.Interface().(zkaffp.Public)) }}
+			verify: func(h *hash.Hash, p reflect.Value, pr interface{}) bool {
+				return pr.(*zkaffp.Proof).Verify(group, h, p.Interface().(zkaffp.Public))
+			}}
 	}},
 	{"mul", []string{"0", "+1", "-1", "+max", "-max", "random"}, func(r *vk.Rand, e zkEnv, class string) *zkInst {
 		x := bigWitness(r, class, 256)
@@ -211,8 +232,10 @@ var zkSystems = []zkSystem{
 		pub := zkmul.Public{X: X, Y: Y, C: C, Prover: prov}
 		priv := zkmul.Private{X: intOf(x), Rho: rho, RhoX: rhoX} // one witness object for every proof made from this instance
 		return &zkInst{pub: addr(pub),
-			prove:  func(h *hash.Hash) interface{} { return zkmul.NewProof(group, h, pub, priv) },
-			verify: func(h *hash.Hash, p reflect.Value, pr interface{}) bool { return pr.(*zkmul.Proof).Verify(group, h, p.Interface().(zkmul.Public)) }}
+			prove: func(h *hash.Hash) interface{} { return zkmul.NewProof(group, h, pub, priv) },
+			verify: func(h *hash.Hash, p reflect.Value, pr interface{}) bool {
+				return pr.(*zkmul.Proof).Verify(group, h, p.Interface().(zkmul.Public))
+			}}
 	}},
 	{"mulstar", rangeClasses, func(r *vk.Rand, e zkEnv, class string) *zkInst {
 		x := bigWitness(r, class, 256)
@@ -223,8 +246,10 @@ var zkSystems = []zkSystem{
 		pub := zkmulstar.Public{C: C, D: D, X: modQ(x).ActOnBase(), Verifier: ver, Aux: e.aux}
 		priv := zkmulstar.Private{X: intOf(x), Rho: rho} // one witness object for every proof made from this instance
 		return &zkInst{pub: addr(pub),
-			prove:  func(h *hash.Hash) interface{} { return zkmulstar.NewProof(group, h, pub, priv) },
-			verify: func(h *hash.Hash, p reflect.Value, pr interface{}) bool { return pr.(*zkmulstar.Proof).Verify(group, h, p.Interface().(zkmulstar.Public)) }}
+			prove: func(h *hash.Hash) interface{} { return zkmulstar.NewProof(group, h, pub, priv) },
+			verify: func(h *hash.Hash, p reflect.Value, pr interface{}) bool {
+				return pr.(*zkmulstar.Proof).Verify(group, h, p.Interface().(zkmulstar.Public))
+			}}
 	}},
 	{"nth", []string{"random", "1"}, func(r *vk.Rand, e zkEnv, class string) *zkInst {
 		N := e.verifier.sk.PublicKey
@@ -238,8 +263,10 @@ var zkSystems = []zkSystem{
 		pub := zknth.Public{N: N, R: R}
 		priv := zknth.Private{Rho: rho} // one witness object for every proof made from this instance
 		return &zkInst{pub: addr(pub),
-			prove:  func(h *hash.Hash) interface{} { return zknth.NewProof(h, pub, priv) },
-			verify: func(h *hash.Hash, p reflect.Value, pr interface{}) bool { return pr.(*zknth.Proof).Verify(h, p.Interface().(zknth.Public)) }}
+			prove: func(h *hash.Hash) interface{} { return zknth.NewProof(h, pub, priv) },
+			verify: func(h *hash.Hash, p reflect.Value, pr interface{}) bool {
+				return pr.(*zknth.Proof).Verify(h, p.Interface().(zknth.Public))
+			}}
 	}},
 	{"log", scalarClasses, func(r *vk.Rand, e zkEnv, class string) *zkInst {
 		a, b := LibScalar(scalarWitness(r, class)), LibScalar(randScalarBig(r))
@@ -247,8 +274,10 @@ var zkSystems = []zkSystem{
 		pub := zklog.Public{H: H, X: a.ActOnBase(), Y: a.Act(H)}
 		priv := zklog.Private{A: a, B: b} // one witness object for every proof made from this instance
 		return &zkInst{pub: addr(pub),
-			prove:  func(h *hash.Hash) interface{} { return zklog.NewProof(group, h, pub, priv) },
-			verify: func(h *hash.Hash, p reflect.Value, pr interface{}) bool { return pr.(*zklog.Proof).Verify(h, p.Interface().(zklog.Public)) }}
+			prove: func(h *hash.Hash) interface{} { return zklog.NewProof(group, h, pub, priv) },
+			verify: func(h *hash.Hash, p reflect.Value, pr interface{}) bool {
+				return pr.(*zklog.Proof).Verify(h, p.Interface().(zklog.Public))
+			}}
 	}},
 	{"elog", scalarClasses, func(r *vk.Rand, e zkEnv, class string) *zkInst {
 		H := LibScalar(randScalarBig(r)).ActOnBase()
@@ -258,8 +287,10 @@ var zkSystems = []zkSystem{
 		pub := zkelog.Public{E: E, ElGamalPublic: X, Base: H, Y: y.Act(H)}
 		priv := zkelog.Private{Y: y, Lambda: lambda} // one witness object for every proof made from this instance
 		return &zkInst{pub: addr(pub),
-			prove:  func(h *hash.Hash) interface{} { return zkelog.NewProof(group, h, pub, priv) },
-			verify: func(h *hash.Hash, p reflect.Value, pr interface{}) bool { return pr.(*zkelog.Proof).Verify(h, p.Interface().(zkelog.Public)) }}
+			prove: func(h *hash.Hash) interface{} { return zkelog.NewProof(group, h, pub, priv) },
+			verify: func(h *hash.Hash, p reflect.Value, pr interface{}) bool {
+				return pr.(*zkelog.Proof).Verify(h, p.Interface().(zkelog.Public))
+			}}
 	}},
 	{"sch", scalarClasses, func(r *vk.Rand, e zkEnv, class string) *zkInst {
 		x := LibScalar(scalarWitness(r, class))
@@ -281,8 +312,10 @@ var zkSystems = []zkSystem{
 		pub := zkmod.Public{N: sk.PublicKey.N()}
 		priv := zkmod.Private{P: sk.P(), Q: sk.Q(), Phi: sk.Phi()} // one witness object for every proof made from this instance
 		return &zkInst{pub: addr(pub),
-			prove:  func(h *hash.Hash) interface{} { return zkmod.NewProof(h, priv, pub, nil) },
-			verify: func(h *hash.Hash, p reflect.Value, pr interface{}) bool { return pr.(*zkmod.Proof).Verify(p.Interface().(zkmod.Public), h, nil) }}
+			prove: func(h *hash.Hash) interface{} { return zkmod.NewProof(h, priv, pub, nil) },
+			verify: func(h *hash.Hash, p reflect.Value, pr interface{}) bool {
+				return pr.(*zkmod.Proof).Verify(p.Interface().(zkmod.Public), h, nil)
+			}}
 	}},
 	{"prm", []string{"key"}, func(r *vk.Rand, e zkEnv, class string) *zkInst {
 		sk := e.prover.sk
@@ -293,15 +326,28 @@ var zkSystems = []zkSystem{
 			prove: func(h *hash.Hash) interface{} {
 				return zkprm.NewProof(priv, h, pub, nil)
 			},
-			verify: func(h *hash.Hash, p reflect.Value, pr interface{}) bool { return pr.(*zkprm.Proof).Verify(p.Interface().(zkprm.Public), h, nil) }}
+			verify: func(h *hash.Hash, p reflect.Value, pr interface{}) bool {
+				return pr.(*zkprm.Proof).Verify(p.Interface().(zkprm.Public), h, nil)
+			}}
 	}},
-	{"fac", []string{"key"}, func(r *vk.Rand, e zkEnv, class string) *zkInst {
+	{"fac", []string{"key", "out-of-range-small-factor"}, func(r *vk.Rand, e zkEnv, class string) *zkInst {
 		sk := e.prover.sk
 		pub := zkfac.Public{N: sk.PublicKey.N(), Aux: e.aux}
 		priv := zkfac.Private{P: sk.P(), Q: sk.Q()} // one witness object for every proof made from this instance
+		if class == "out-of-range-small-factor" {
+			// N = (61-bit prime) * (1987-bit prime): a 2048-bit modulus that does have a small factor; the statement
+			// "no small factor" is false and a proof by the ordinary prover must not verify
+			ps, _ := rand.Prime(rand.Reader, 61)
+			pl, _ := rand.Prime(rand.Reader, 1987)
+			n := new(big.Int).Mul(ps, pl)
+			pub = zkfac.Public{N: saferith.ModulusFromNat(natOf(n)), Aux: e.aux}
+			priv = zkfac.Private{P: natOf(ps), Q: natOf(pl)}
+		}
 		return &zkInst{pub: addr(pub),
-			prove:  func(h *hash.Hash) interface{} { return zkfac.NewProof(priv, h, pub) },
-			verify: func(h *hash.Hash, p reflect.Value, pr interface{}) bool { return pr.(*zkfac.Proof).Verify(p.Interface().(zkfac.Public), h) }}
+			prove: func(h *hash.Hash) interface{} { return zkfac.NewProof(priv, h, pub) },
+			verify: func(h *hash.Hash, p reflect.Value, pr interface{}) bool {
+				return pr.(*zkfac.Proof).Verify(p.Interface().(zkfac.Public), h)
+			}}
 	}},
 }
 
@@ -474,6 +520,19 @@ func c10Cases(env vk.Env) []vk.Case {
 			}
 		}
 	}
+	// every system once more with auxiliary parameters over an independent modulus (completeness + reuse; binding
+	// lattice in thorough)
+	for si := range zkSystems {
+		sys := zkSystems[si]
+		si := si
+		class := sys.classes[len(sys.classes)-1]
+		for _, c := range sys.classes {
+			if c == "random" || c == "key" {
+				class = c
+			}
+		}
+		cs = append(cs, vk.Case{ID: fmt.Sprintf("%s/%s/independent-aux", sys.name, class), Run: func(t *vk.T) { c10Run(t, zkSystems[si], class, 100, env.Thorough()) }})
+	}
 	return cs
 }
 
@@ -490,6 +549,10 @@ func c10Verify(t *vk.T, inst *zkInst, h *hash.Hash, pub reflect.Value, proof int
 func c10Run(t *vk.T, sys zkSystem, class string, ei int, full bool) {
 	r := t.Rng
 	e := zkEnvAt(ei)
+	if ei >= 100 { // environments 100+ use independent auxiliary parameters
+		e = zkEnvIndependentAux(ei - 100)
+		ei -= 100
+	}
 	h := hash.New(hash.BytesWithDomain{TheDomain: "ctx", Bytes: r.Bytes(8)}, hash.BytesWithDomain{TheDomain: "party", Bytes: []byte("alice")})
 	outOfRange := strings.HasPrefix(class, "out-of-range")
 	inst := sys.build(r, e, class)
@@ -519,7 +582,9 @@ func c10Run(t *vk.T, sys zkSystem, class string, ei int, full bool) {
 	// the same prover proves the same statement again from the very same witness objects (one proof per recipient):
 	// completeness must not depend on how often the witness was used
 	var proofAgain interface{}
-	if p, fr, txt := vk.Guard(func() { proofAgain = inst.prove(h.Fork(hash.BytesWithDomain{TheDomain: "recipient", Bytes: []byte("second")})) }); p {
+	if p, fr, txt := vk.Guard(func() {
+		proofAgain = inst.prove(h.Fork(hash.BytesWithDomain{TheDomain: "recipient", Bytes: []byte("second")}))
+	}); p {
 		t.Violation(sys.name+"|prover-panic-on-reuse|"+class+"|"+fr, "prover panicked when the witness was used for a second proof: %s", txt)
 		return
 	}
